@@ -555,6 +555,7 @@ impl<'tcx> Cx<'tcx> {
             ("kind", esc(&format!("{:?}", kind).split(|c| c == ' ' || c == '{' || c == '(').next().unwrap_or("").to_string())),
             ("parent", esc(&parent)),
             ("span", esc(&self.span(tcx.def_span(did)))),
+            ("macro_generated", tcx.def_span(did).from_expansion().to_string()),
             ("argc", body.arg_count.to_string()),
         ];
         // typeck root for closures
@@ -669,6 +670,7 @@ impl<'tcx> Cx<'tcx> {
                         ("self", esc(&self.ty(self_ty))),
                         ("span", esc(&self.span(tcx.def_span(did)))),
                         ("derived", tcx.is_automatically_derived(did).to_string()),
+                        ("macro_generated", tcx.def_span(did).from_expansion().to_string()),
                     ];
                     if let ty::Adt(a, _) = self_ty.kind() {
                         it.push(("self_adt", esc(&self.path(a.did()))));
